@@ -39,6 +39,10 @@ type caseT struct {
 	Pad     int    `json:"udp_reply_pad"` // -1: the UDP reply is a bare 12-byte header
 	TCPMode string `json:"tcp_mode"` // answer | close | none | garbage | slowclose
 	ID      uint16 `json:"caller_id"`
+	// abandoned-retry sequences: the TCP side answers after TCPDelayMs, the caller's
+	// context lasts CtxMs (0 = 5 s)
+	TCPDelayMs int `json:"tcp_delay_ms,omitempty"`
+	CtxMs      int `json:"ctx_ms,omitempty"`
 }
 
 type obs struct {
@@ -176,6 +180,9 @@ func (s *server) serveTCP() {
 				o.mu.Unlock()
 				switch s.mode {
 				case "answer":
+					if c.TCPDelayMs > 0 {
+						time.Sleep(time.Duration(c.TCPDelayMs) * time.Millisecond)
+					}
 					conn.Write(wire.Frame(r))
 				case "close":
 					return
@@ -205,10 +212,19 @@ func runCase(s *server, u upstream.Upstream, c *caseT) {
 	}()
 	q := dnsadv.Query(c.ID, c.Seq, 17, "c17", 1)
 	qcopy := append([]byte(nil), q...)
-	ctx, cancel := context.WithTimeout(context.Background(), 5*time.Second)
+	ctxDur := 5 * time.Second
+	if c.CtxMs > 0 {
+		ctxDur = time.Duration(c.CtxMs) * time.Millisecond
+	}
+	ctx, cancel := context.WithTimeout(context.Background(), ctxDur)
 	rb, err := u.ExchangeContext(ctx, q)
 	cancel()
 	rep.Eval(1)
+	if c.CtxMs > 0 && err != nil {
+		// the caller's context ended first: an error is all the statement asks for
+		rep.Count("abandoned_calls_returned_error", 1)
+		return
+	}
 	o.mu.Lock()
 	defer o.mu.Unlock()
 	tc := c.Flags&0x0200 != 0
@@ -383,6 +399,36 @@ func sharedBufferPhase(s *server, u upstream.Upstream) {
 	}
 }
 
+// abandonedRetries: sequences on ONE upstream in which some TCP retries are
+// abandoned (the caller's context ends before the delayed TCP reply) and the late
+// reply arrives while the connection is idle again; the following truncated
+// queries reuse that connection and must each get the TCP reply to their own
+// query.
+func abandonedRetries(s *server, rng *rand.Rand) {
+	for round := 0; round < rep.Pick(3, 20); round++ {
+		u, err := upstream.NewUpstream("udp://"+s.addr, upstream.Opt{})
+		if err != nil {
+			rep.Inconclusive("abandoned retries: NewUpstream: %v", err)
+			return
+		}
+		steps := 2 + rng.Intn(3)
+		for st := 0; st < steps; st++ {
+			ab := &caseT{Seq: int(seqCtr.Add(1)), Flags: 0x8380, Pad: 30, TCPMode: "answer", ID: uint16(rng.Intn(65536)), TCPDelayMs: 200 + rng.Intn(100), CtxMs: 60 + rng.Intn(60)}
+			caselog.Log(map[string]any{"abandoned_retry": ab})
+			runCase(s, u, ab)
+			// let the late reply arrive and the connection go back to the idle pool
+			time.Sleep(time.Duration(ab.TCPDelayMs+120) * time.Millisecond)
+			for k := 0; k < 1+rng.Intn(3); k++ {
+				c := &caseT{Seq: int(seqCtr.Add(1)), Flags: 0x8380 | uint16(rng.Intn(16)), Pad: []int{0, 50, 1100}[rng.Intn(3)], TCPMode: "answer", ID: uint16(rng.Intn(65536))}
+				caselog.Log(map[string]any{"after_abandoned_retry": c})
+				runCase(s, u, c)
+				rep.Count("tc_queries_after_an_abandoned_tcp_retry", 1)
+			}
+		}
+		u.Close()
+	}
+}
+
 // optionVariants: the same server reached through udp upstreams created with
 // every option NewUpstream accepts — those documented as meaningless for plain
 // UDP (socks5, pipelining, http3, bootstrap with an IP address) and dial_addr
@@ -548,6 +594,7 @@ func main() {
 	wg.Wait()
 	sharedBufferPhase(servers["answer"], ups["answer"])
 	optionVariants(servers["answer"], rng)
+	abandonedRetries(servers["answer"], rng)
 	for _, u := range ups {
 		u.Close()
 	}
